@@ -153,7 +153,8 @@ func c01FmtLines(r *c01Runner, g *c01Gen, nrandom int) int {
 // c01CoerceDataset: every string of the pool is the value of a string field, of an any-typed map element and an
 // element of each kind of string set; float / int fields hold the numbers themselves
 func c01CoerceDataset() *c01Dataset {
-	pool := c01SortDedup(append(append([]string{}, c01EscStrings...), c01NumberStrings(c01CoerceSweepNumLits, c01ExtremeInts[:3])...))
+	// "" is in the pool: the one stored string whose bytes are empty (a field value, a set element, a tag value)
+	pool := c01SortDedup(append(append([]string{""}, c01EscStrings...), c01NumberStrings(c01CoerceSweepNumLits, c01ExtremeInts[:3])...))
 	var floats []float64
 	for _, txt := range c01CoerceSweepNumLits {
 		floats = append(floats, c01MustFloat(txt))
@@ -161,7 +162,7 @@ func c01CoerceDataset() *c01Dataset {
 	floats = append(floats, 4.25, 1e22, 0.30000000000000004, math.NaN(), math.Inf(-1), 1e-7)
 	const people = 30
 	at := func(k int) string { return pool[k%len(pool)] }
-	d := &c01Dataset{stores: make([][]c01Entity, len(c01Schema))}
+	d := &c01Dataset{stores: make([][]c01Entity, c01Roots)}
 	placeIds := []string{"l0", "l1", "l2", "l3"}
 	for i := 0; i < people; i++ {
 		e := c01Entity{id: fmt.Sprintf("c%02d", i)}
@@ -237,7 +238,7 @@ func c01SweepCoerce(r *c01Runner, dotted bool) int {
 	for _, s := range c01EscStrings {
 		lits = append(lits, &c01Lit{k: 'S', s: s})
 	}
-	for _, s := range []string{"0.00001", "1e-05", "1e+21", "1000000000000000000000", "e", ".", "000", "-"} {
+	for _, s := range []string{"0.00001", "1e-05", "1e+21", "1000000000000000000000", "e", ".", "000", "-", ""} {
 		lits = append(lits, &c01Lit{k: 'S', s: s})
 	}
 	ops := append(append([]string{}, c01CmpOps...), c01StrOps...)
@@ -255,7 +256,7 @@ func c01SweepCoerce(r *c01Runner, dotted bool) int {
 			arr []*c01Lit
 		}{
 			{"AS", []*c01Lit{{k: 'S', s: `say "hi"`}, {k: 'S', s: `\`}, {k: 'S', s: `a"`}}},
-			{"AS", []*c01Lit{{k: 'S', s: `"`}, {k: 'S', s: "a\nb"}}},
+			{"AS", []*c01Lit{{k: 'S', s: `"`}, {k: 'S', s: "a\nb"}, {k: 'S', s: ""}}},
 			{"AS", []*c01Lit{{k: 'S', s: "1e-05"}, {k: 'S', s: "1000000000000000000000"}, {k: 'S', s: `"hi"`}}},
 			{"AN", []*c01Lit{{k: 'F', ftxt: "1e-5"}, {k: 'F', ftxt: "1e21"}}},
 			{"AN", []*c01Lit{{k: 'I', i: 42}, {k: 'F', ftxt: "99999999999999999999"}, {k: 'F', ftxt: "2.5e-7"}}},
